@@ -29,6 +29,17 @@ theorem default_trie_accepts (env : Env) (ws : List Str) (w : Str) (h : w ∈ ws
   apply Props.C16.trie_accepts_every_cluster {} env (sortCases ws) rfl
   exact Props.C01.clusters_cover {} env ws w h rfl rfl rfl
 
+/-- **S1+S2+S5 exact** with default settings the trie accepts a label sequence iff it is the cluster of one of
+the given test cases: nothing else gets in (S5 exactness composed with S1 exactness) -/
+theorem default_trie_exact (env : Env) (ws : List Str) (w : List Grapheme) :
+    (Dfa.trie (graphemeClusters {} env (sortCases ws))).Accepts w ↔
+      ∃ t ∈ ws, w = clusterOfPieces (env.segOf t) := by
+  rw [Props.C16.trie_language_exact {} env (sortCases ws) rfl w, default_clusters]
+  simp only [List.mem_map]
+  constructor
+  · rintro ⟨t, ht, rfl⟩; exact ⟨t, (s1_exact ws t).mp ht, rfl⟩
+  · rintro ⟨t, ht, rfl⟩; exact ⟨t, (s1_exact ws t).mpr ht, rfl⟩
+
 /-- **literal level (literals)** for every code point, what the literal printer writes is read back by the
 parser as that code point (generated `CHARS_TO_ESCAPE`) -/
 theorem literal_lexes (c : Nat) : Lex.parsesAsChar (escapeSymbols [c]) c = true := Lex.literal_lexes c
